@@ -117,7 +117,7 @@ def run_dbg_cases(ctx, cases, tags, violations, profiles=("debug",), limit=10, n
                 v, mode = text_variant(vr, c)
                 tcases.append(v); ttags.append(tags[ci]); modes[mode] = modes.get(mode, 0) + 1
         ri, rm, crashes = ctx.run_both(tcases, profile=profiles[0], tag="dbgt")
-        n, bad, outside = 0, 0, 0
+        n, bad, n_outside = 0, 0, 0
         for c in crashes:
             idx = c.get("case_index")
             violations.append({"kind": "implementation-does-not-terminate" if c.get("hung") else "implementation-crashed",
@@ -127,7 +127,7 @@ def run_dbg_cases(ctx, cases, tags, violations, profiles=("debug",), limit=10, n
                 continue
             n += 1
             if b and b[0].split() == ["8"]:
-                outside += 1
+                n_outside += 1
             why, outside = classify(compare_all(a, b), aux)
             if why is None:
                 continue
@@ -143,7 +143,7 @@ def run_dbg_cases(ctx, cases, tags, violations, profiles=("debug",), limit=10, n
                                "format": "DBGT case: the model parses the script text itself (DebugText.v)", "note": note})
         evaluations += n
         mismatches += bad
-        text_stats = {"sessions_with_script_as_text": n, "outside_domain": outside, "mismatches": bad, "transport": modes,
+        text_stats = {"sessions_with_script_as_text": n, "outside_domain": n_outside, "mismatches": bad, "transport": modes,
                       "rule": "every session twice more with the script given to the MODEL as text (DebugText.v): once verbatim in --command, once respelled (aliases, letter case, radix/sign spellings of every number), with rejected lines interleaved, through --command / stdin / split across both"}
     return dict(evaluations=evaluations, sigs=sigs, samples=samples, hist=hist, mismatches=mismatches,
                 skipped_budget=skipped, results=results, text=text_stats)
@@ -285,7 +285,8 @@ def uses_console_input(src, text):
 
 def text_variant(rnd, case):
     """DBG case -> DBGT case whose script text is respelled (aliases, letter case, radix/sign spellings of every number),
-    interleaved with lines the parser rejects, and handed over through --command, through stdin, or split across both.
+    interleaved with lines the parser rejects, and handed over through --command, through the console stream, or split
+    across both — with the program's input behind it on that same stream (DBGS, model DbgStream.v).
     Both sides parse the text themselves; the commands encoded in the DBG case are not used."""
     t = case.split()
     x = [int(v, 16) for v in t[1:]]
@@ -305,21 +306,26 @@ def text_variant(rnd, case):
     for l in out:
         parts.append(l)
         parts.append(rnd.choice([";", "\n", "; ", " ;", "\n\n", ";;", "\n;"]))
-    mode = "arg"
-    if ninp == 0 and not uses_console_input(src, text):
-        mode = rnd.choice(["arg", "stdin", "split", "split"])
+    # transport: the argument, the console stream, or split across both.  The console stream is ONE stream (DbgStream.v):
+    # what the debugger does not read of it is the program's input, and the other way round, in the order they ask.
+    mode = rnd.choice(["arg", "stream", "split", "split"])
     if mode == "arg":
         arg, stdin, has = "".join(parts), "", 1
-    elif mode == "stdin":
+    elif mode == "stream":
         arg, stdin, has = "", "".join(parts), 0
     else:
         cut = rnd.randrange(0, len(out) + 1) * 2
         arg, stdin, has = "".join(parts[:cut]), "".join(parts[cut:]), 1
         if arg and rnd.random() < 0.5:
             arg = arg.rstrip(";\n ")          # the argument need not end with a separator
-    a = [ord(c) for c in arg]; sd = [ord(c) for c in stdin]
-    nums = x[:i] + [has, len(a)] + a + [len(sd)] + sd
-    return "DBGT " + " ".join(f"{v:x}" for v in nums), mode
+    inp = x[i - ninp:i]
+    if any(ord(c) > 127 for c in arg + stdin):
+        # non-ASCII script text stays in the argument (the model of the stdin reader works on ASCII bytes)
+        arg, stdin, has, mode = arg + stdin, "", 1, "arg"
+    a = [ord(c) for c in arg]
+    stream = [ord(c) for c in stdin] + inp
+    nums = x[:i - ninp - 1] + [has, len(a)] + a + [len(stream)] + stream
+    return "DBGS " + " ".join(f"{v:x}" for v in nums), mode
 
 
 # ---------------------------------------------------------------- the real binary, hooks off
